@@ -17,6 +17,7 @@ from vf.gen import doc
 from vf.model.db import ModelDB, View
 from vf.obscheck import compare
 
+ID = 'C11'
 RULE = ('one case = one family (base + extension, 3-6 entries/synsets each, dense relation multigraph) observed in 4 scopes; for every '
         'entity 6 type-argument sets; distinct = document hash; non-trivial = the family has a relation cycle or self-loop and a '
         'pair of relations differing only in dc:type or metadata')
@@ -31,7 +32,7 @@ QUIRKS = {'nav-by-id': None, 'tags-unowned': None, 'ext-forms': None}
 
 
 def plan(tier, seed):
-    return [{'seed': seed * 1000003 + i} for i in range(N[tier])]
+    return [{'seed': seed * 1000003 + i} for i in range(N[tier])] + [{'kind': 'pytest-under-contracts', 'seed': 0}]
 
 
 class Steps:
@@ -101,6 +102,9 @@ def simple_paths(view, key, kind, types, cap=3000):
 
 
 def run_case(case, rec):
+    if case.get('kind') == 'pytest-under-contracts':
+        from vf import contracts_case
+        return contracts_case.run(rec, ID)
     import wn
     r = random.Random(case['seed'])
     pa = doc.Profile(max_entries=r.choice([3, 4, 6]), max_synsets=r.choice([3, 4, 6]), max_rel=4, dup_rel=0.35, p_rel=0.9, p_meta=0.5,
